@@ -425,18 +425,18 @@ pub fn render_trait(t: &Trait, ks: &[PKind]) -> String {
     s
 }
 
-fn target_dir() -> PathBuf {
+pub fn target_dir() -> PathBuf {
     std::env::current_exe().ok().and_then(|p| p.parent().and_then(|p| p.parent()).map(|p| p.to_path_buf())).unwrap_or_else(|| verif_root().join("harness/target"))
 }
 
-struct Build {
-    ok: bool,
+pub struct Build {
+    pub ok: bool,
     /// generated module index -> first error message
-    errors: BTreeMap<usize, String>,
-    unmapped: Vec<String>,
+    pub errors: BTreeMap<usize, String>,
+    pub unmapped: Vec<String>,
 }
 
-fn build_corpus(krate: &str) -> Build {
+pub fn build_corpus(krate: &str) -> Build {
     let out = Command::new("cargo")
         .current_dir(verif_root().join("harness"))
         .env("RUSTFLAGS", "--cfg zlink_verif")
@@ -489,7 +489,7 @@ fn build_corpus(krate: &str) -> Build {
     Build { ok: out.status.success(), errors, unmapped }
 }
 
-fn write_corpus(krate: &str, modules: &BTreeMap<usize, String>, skip: &BTreeSet<usize>) {
+pub fn write_corpus(krate: &str, modules: &BTreeMap<usize, String>, skip: &BTreeSet<usize>) {
     let dir = verif_root().join("harness").join(krate).join("gen-out");
     let _ = std::fs::remove_dir_all(&dir);
     std::fs::create_dir_all(&dir).expect("create gen-out");
@@ -505,6 +505,11 @@ fn write_corpus(krate: &str, modules: &BTreeMap<usize, String>, skip: &BTreeSet<
     }
     modrs.push_str(&format!("pub fn run_all(out: &mut Vec<crate::prelude::Record>) {{\n{calls}}}\n"));
     std::fs::write(dir.join("mod.rs"), modrs).expect("write mod.rs");
+    if std::env::var_os("VERIF_KEEP_CORPUS").is_some() && skip.is_empty() {
+        let keep = verif_root().join("work").join(format!("{krate}-corpus"));
+        let _ = std::fs::remove_dir_all(&keep);
+        let _ = Command::new("cp").arg("-r").arg(&dir).arg(&keep).status();
+    }
 }
 
 pub fn restore_stub(krate: &str) {
